@@ -89,6 +89,56 @@ Proof.
   intros Hq t. apply (lp_idle _ _ _ H1). unfold full_hist in Hq. rewrite H2 in Hq. apply Hq.
 Qed.
 
+(** ** MichaelList with the item counter ( atomicity::item_counter, [ic = true] ): at quiescence m_ItemCounter is the
+    cardinality of the abstract set = the number of unmarked nodes of the chain (LV.Proofs.MichaelListCount, MichaelListCountProofs) *)
+From LV Require Import Proofs.MichaelListCount Proofs.MichaelListCountProofs.
+From Coq Require Import Permutation.
+
+Lemma zmem_In k S : zmem k S = true <-> In k S.
+Proof.
+  unfold zmem. rewrite existsb_exists. split.
+  - intros (x & Hx & E). apply Z.eqb_eq in E. subst. exact Hx.
+  - intros H. exists k. split; [exact H|apply Z.eqb_refl].
+Qed.
+
+Lemma znodup_NoDup S : znodup S -> NoDup S.
+Proof.
+  induction S as [|x S IH]; intros H; constructor; destruct H as [H1 H2]; [|apply IH; exact H2].
+  intros Hin. apply zmem_In in Hin. congruence.
+Qed.
+
+Theorem mlist_quiescent_count fuel sf ths c :
+  Conc.reach (init_cfg fuel sf true ths) c ->
+  exists atr S st L,
+    lp_run lp_init atr = Some (S, st) /\ erase atr = full_hist (Conc.trace c) /\
+    list_nodes (Conc.shared c) L /\
+    zsorted (live_keys (Conc.shared c) L) /\ NoDup (live_keys (Conc.shared c) L) /\
+    (forall k, zmem k S = true <-> In k (live_keys (Conc.shared c) L)) /\
+    (quiescent_hist (full_hist (Conc.trace c)) ->
+       (forall t, st t = @Idle SetSpec) /\
+       count (Conc.shared c) = Z.of_nat (List.length S) /\
+       count (Conc.shared c) = Z.of_nat (List.length (live_keys (Conc.shared c) L))).
+Proof.
+  intros Hr. destruct (Conc.reach_Inv (init_okC fuel sf ths) Hr) as (a & (L & HS & [(S & st & H1 & H2 & H3) (pend & H4 & H5)]) & (Hnd & Hout & Hcnt & Hz)).
+  destruct (chain_keys_sorted _ _ (is_chain _ _ _ HS)) as [K1 K2].
+  assert (Hs : zsorted (live_keys (Conc.shared c) L)) by (apply zsorted_sub; exact K1).
+  assert (Eh : erase (a_atr (b_base (e_base a))) = full_hist (Conc.trace c)) by (unfold full_hist; rewrite H4; reflexivity).
+  assert (Hne : no_extract (a_atr (b_base (e_base a)))).
+  { intros t o Hin. apply erase_inv_in in Hin. rewrite Eh in Hin. apply (full_hist_ok _ t o Hin). }
+  destruct (lp_size _ _ _ H1 Hne) as (_ & HndS & Hsz).
+  exists (a_atr (b_base (e_base a))), S, st, L. split; [exact H1|]. split; [exact Eh|].
+  split; [split; [apply (is_chain _ _ _ HS)|exact K2]|]. split; [exact Hs|]. split; [apply zsorted_nodup; exact Hs|].
+  split; [apply abs_live; exact H3|].
+  intros Hq.
+  assert (Hidle : forall t, st t = @Idle SetSpec) by (intros t; apply (lp_idle _ _ _ H1); rewrite Eh; apply Hq).
+  assert (Hc : count (Conc.shared c) = Z.of_nat (List.length S)).
+  { rewrite (Hsz [] (NoDup_nil _)); [|intros t Ht; exfalso; apply Ht; apply Hidle]. cbn [sumf].
+    rewrite Hcnt, Eh. rewrite sumf_zero; [lia|]. intros t _. apply Hz. unfold view2. cbn [fst]. rewrite <- H2. apply Hidle. }
+  split; [exact Hidle|]. split; [exact Hc|]. rewrite Hc. f_equal. apply Permutation_length.
+  apply NoDup_Permutation; [apply znodup_NoDup; exact HndS|apply zsorted_nodup; exact Hs|].
+  intros k. rewrite <- zmem_In. apply abs_live. exact H3.
+Qed.
+
 (** ** LazyList (LV.Proofs.LazyListQuiescent).
     The history is [upd_hist] (the LazyList linearizability theorem covers the modifying operations; an operation that
     did not modify the list is deleted from the history when it returns, while it is running its invocation is in the
@@ -107,3 +157,19 @@ Theorem lazy_quiescent fuel sf ic ths (c : Conc.config LazyList.G LazyList.V ev)
        (forall t, st0 t = @Idle SetSpec) /\
        (forall k, zmem k Sabs = true <-> In k (LazyListDefs.lazy_keys (Conc.shared c)))).
 Proof. exact (LazyListQuiescent.lazy_quiescent fuel sf ic ths c). Qed.
+
+(** LazyList with the item counter ( [ic = true] ): at quiescence m_ItemCounter is the cardinality of the abstract set =
+    the number of nodes between m_Head and m_Tail (LV.Proofs.LazyListCount, LazyListCountProofs) *)
+From LV Require Proofs.LazyListCountProofs.
+
+Theorem lazy_quiescent_count fuel sf ths (c : Conc.config LazyList.G LazyList.V ev) :
+  Conc.reach (LazyList.init_cfg fuel sf true ths) c ->
+  exists atr Sabs st0,
+    lp_run lp_init atr = Some (Sabs, st0) /\ erase atr = upd_hist (Conc.trace c) /\
+    LazyListDefs.increasing (LazyListDefs.lazy_keys (Conc.shared c)) /\
+    (LazyListQuiescent.quiescent_hist (upd_hist (Conc.trace c)) ->
+       (forall t, st0 t = @Idle SetSpec) /\
+       (forall k, zmem k Sabs = true <-> In k (LazyListDefs.lazy_keys (Conc.shared c))) /\
+       LazyList.count (Conc.shared c) = Z.of_nat (List.length Sabs) /\
+       LazyList.count (Conc.shared c) = Z.of_nat (List.length (LazyListDefs.lazy_keys (Conc.shared c)))).
+Proof. exact (LazyListCountProofs.lazy_quiescent_count fuel sf ths c). Qed.
